@@ -1127,5 +1127,88 @@ end Round4Conv
 section Round4Alloc
 -- (theorems of this package go between this line and the `end`)
 
+/-- one row of the coverage table of native entry points: the Python name of the entry point, the C10 theorems about the index
+arithmetic of its hot loops (and the `C10_alloc_*` theorem of the loop shape that fills its result), the C11 theorems that lead from
+the extracted guards to those theorems, the level reached — `safe`: a `C11_*_safe` corollary composes guards ⇒ precondition ⇒
+bounds; `pre`: guards ⇒ precondition proved, composition with the bounds theorem not stated; `bounds`: C10 theorem only (its
+hypotheses are not derived from guards, or it has none); `partial`: a `_partial` corollary that names the gap — and what is open. -/
+structure EntryCover where
+  entry : String
+  c10 : List Lean.Name
+  c11 : List Lean.Name
+  level : String
+  note : String
+
+/-- the coverage table (hand-written; `Generated.nativeGuardTable` is regenerated from the sources on every run) -/
+def entryCover : List EntryCover := [
+  ⟨"_bbox.bbox", [``C10_bbox_in_bounds, ``C10_alloc_bbox_extrema_defined], [], "bounds", "the entry point only needs an ndarray (every rank/layout handled); no composed corollary needed"⟩,
+  ⟨"_bbox.bbox_labeled", [``C10_bbox_labeled_in_bounds, ``C10_alloc_bbox_extrema_defined], [``C11_bbox_guards_imply_pre, ``C11_bbox_safe], "safe", ""⟩,
+  ⟨"_center_of_mass.center_of_mass", [``C10_center_of_mass_in_bounds, ``C10_alloc_fill_defined], [``C11_center_of_mass_guards_imply_pre, ``C11_center_of_mass_safe], "safe", "the std::reverse post-pass over the centers table is not modelled"⟩,
+  ⟨"_convex.convexhull", [``C10_graham_in_bounds, ``C10_alloc_convexhull_output_defined], [``C11_2d_guards_imply_pre], "pre", "the pixel scan `barray.at(y,x)` is a rows loop (C10_alloc_rows_defined shape); no composed corollary"⟩,
+  ⟨"_convolve.convolve1d", [``C10_convolve1d_in_bounds, ``C10_convolve1d_python_guard, ``C10_alloc_rows_defined], [``C11_convolve1d_reach_implies_pre, ``C11_convolve1d_safe], "safe", ""⟩,
+  ⟨"_convolve.convolve", [``C10_filter_table_ok, ``C10_filter_iterator_refines, ``C10_alloc_pixel_loop_defined], [``C11_convolve_guards_imply_pre, ``C11_convolve_safe], "safe", ""⟩,
+  ⟨"_convolve.haar", [``C10_haar_in_bounds], [``C11_wavelet_safe], "safe", ""⟩,
+  ⟨"_convolve.wavelet", [``C10_wavelet_in_bounds], [``C11_wavelet_safe], "safe", "a user-supplied coefficient array: its length is `nc` of the theorem"⟩,
+  ⟨"_convolve.iwavelet", [``C10_wavelet_in_bounds], [``C11_wavelet_safe], "safe", ""⟩,
+  ⟨"_convolve.daubechies", [``C10_wavelet_in_bounds], [``C11_wavelet_safe], "safe", "the `dcoeffs(code)` table selection is not modelled"⟩,
+  ⟨"_convolve.idaubechies", [``C10_wavelet_in_bounds], [``C11_wavelet_safe], "safe", "the `dcoeffs(code)` table selection is not modelled"⟩,
+  ⟨"_convolve.ihaar", [``C10_haar_in_bounds], [``C11_wavelet_safe], "safe", ""⟩,
+  ⟨"_convolve.rank_filter", [``C10_filter_table_ok, ``C10_filter_iterator_refines, ``C10_rank_filter_in_bounds, ``C10_rank_filter_needs_rank_guard, ``C10_alloc_pixel_loop_defined], [``C11_rank_guards_imply_pre, ``C11_rank_filter_safe], "safe", ""⟩,
+  ⟨"_convolve.mean_filter", [``C10_filter_table_ok, ``C10_filter_iterator_refines, ``C10_alloc_pixel_loop_defined], [``C11_convolve_guards_imply_pre], "pre", "no model of its own (filter iterator + pixel loop); divisor for an empty neighbourhood not modelled"⟩,
+  ⟨"_convolve.template_match", [``C10_filter_table_ok, ``C10_filter_iterator_refines, ``C10_alloc_pixel_loop_defined], [``C11_template_match_guards_imply_pre], "pre", "the raw template pointer `template[j]`, j < N2 is not modelled"⟩,
+  ⟨"_convolve.find2d", [``C10_find2d_in_bounds, ``C10_alloc_fill_defined], [``C11_find2d_guards_imply_pre, ``C11_find2d_safe], "safe", ""⟩,
+  ⟨"_distance.dt", [``C10_dist_transform_in_bounds, ``C10_line_address], [``C11_dt_guards_imply_pre, ``C11_dt_safe], "safe", "definedness of the scratch arrays z, v, Df, ot is validated only (C10_alloc_validated_only)"⟩,
+  ⟨"_histogram.histogram", [``C10_histogram_in_bounds, ``C10_histogram_needs_unsigned], [``C11_histogram_safe], "safe", ""⟩,
+  ⟨"_histogram.otsu", [``C10_otsu_in_bounds], [``C11_otsu_safe], "safe", ""⟩,
+  ⟨"_interpolate.spline_filter1d", [``C10_spline_filter1d_in_bounds, ``C10_line_address], [``C11_interpolate_order_guards_imply_pre], "pre", "`init_poles`, `pole[2]` not modelled"⟩,
+  ⟨"_interpolate.zoom_shift", [``C10_zoom_shift_in_bounds, ``C10_zoom_shift_tables_in_bounds, ``C10_alloc_pixel_loop_defined], [``C11_zoom_shift_guards_imply_pre, ``C11_zoom_shift_safe], "safe", "float->int conversions abstracted; `spline_coefficients` result vector not modelled"⟩,
+  ⟨"_labeled.label", [``C10_filter_table_ok, ``C10_filter_iterator_refines, ``C10_label_union_find_in_bounds, ``C10_find_in_bounds], [``C11_label_guards_imply_pre, ``C11_label_safe, ``C11_label_union_find_safe], "safe", "the renumbering pass (`std::map`) is a pixel loop over data[i]"⟩,
+  ⟨"_labeled.relabel", [``C10_relabel_in_bounds], [], "bounds", "std::map trusted"⟩,
+  ⟨"_labeled.is_same_labeling", [``C10_pair_scan_in_bounds], [``C11_is_same_labeling_safe_partial], "partial", "the size test is the wrapper's early `return False`, not an extracted guard"⟩,
+  ⟨"_labeled.remove_regions", [``C10_remove_regions_in_bounds, ``C10_lower_bound_in_bounds], [], "bounds", ""⟩,
+  ⟨"_labeled.borders", [``C10_filter_table_ok, ``C10_filter_iterator_refines, ``C10_alloc_fill_defined], [``C11_convolve_guards_imply_pre], "bounds", "filter iterator + stores at the pixel cursor; no model of its own"⟩,
+  ⟨"_labeled.border", [``C10_filter_table_ok, ``C10_filter_iterator_refines, ``C10_alloc_fill_defined], [], "bounds", "filter iterator + stores at the pixel cursor; no model of its own"⟩,
+  ⟨"_labeled.labeled_sum", [``C10_labeled_foldl_in_bounds, ``C10_alloc_fill_defined], [], "bounds", "negative labels are skipped by the kernel (`C10_labeled_foldl_in_bounds`)"⟩,
+  ⟨"_labeled.labeled_max_min", [``C10_labeled_foldl_in_bounds, ``C10_alloc_fill_defined], [], "bounds", ""⟩,
+  ⟨"_labeled.slic", [], [``C11_slic_guards_imply_pre, ``C11_slic_seeds_nonempty_in_range, ``C11_slic_seed_fuel_sufficient], "pre", "NO index model of the slic loops (window loops, centroid tables): validated by the ASan sweep only"⟩,
+  ⟨"_morph.subm", [``C10_pair_scan_in_bounds], [``C11_subm_safe], "safe", ""⟩,
+  ⟨"_morph.erode", [``C10_filter_table_ok, ``C10_filter_iterator_refines, ``C10_fastbinary_in_bounds, ``C10_alloc_pixel_loop_defined], [``C11_morph_guards_imply_pre, ``C11_erode_dilate_safe], "safe", ""⟩,
+  ⟨"_morph.locmin_max", [``C10_filter_table_ok, ``C10_filter_iterator_refines, ``C10_alloc_fill_defined], [], "bounds", "filter iterator + conditional stores at the pixel cursor; no model of its own"⟩,
+  ⟨"_morph.regmin_max", [``C10_filter_table_ok, ``C10_filter_iterator_refines, ``C10_alloc_fill_defined, ``C10_stack_flood_in_bounds, ``C10_position_stack_in_bounds], [], "bounds", "the outer scan of remove_fake_regmin_max (iterator position + neighbours behind validposition) is not traced as a whole"⟩,
+  ⟨"_morph.dilate", [``C10_filter_table_ok, ``C10_filter_iterator_refines, ``C10_fastbinary_in_bounds, ``C10_alloc_fill_defined], [``C11_morph_guards_imply_pre, ``C11_erode_dilate_safe], "safe", "the scatter writes `filter.set(rpos, j, …)` use the same offset table as the reads"⟩,
+  ⟨"_morph.disk_2d", [``C10_disk_2d_in_bounds], [``C11_disk_guards_imply_pre, ``C11_disk_2d_safe], "safe", ""⟩,
+  ⟨"_morph.close_holes", [``C10_close_holes_seeding_in_bounds, ``C10_stack_flood_in_bounds, ``C10_close_holes_flood_terminates, ``C10_position_stack_in_bounds, ``C10_alloc_fill_defined], [``C11_2d_guards_imply_pre, ``C11_close_holes_safe], "safe", ""⟩,
+  ⟨"_morph.cwatershed", [``C10_cwatershed_in_bounds, ``C10_cwatershed_table_ok], [``C11_cwatershed_guards_imply_pre], "pre", "priority queue by contract"⟩,
+  ⟨"_morph.distance_multi", [``C10_distance_multi_in_bounds, ``C10_distance_multi_needs_neighbour, ``C10_position_queue_in_bounds], [], "bounds", "TERMINATION of the queue loop is open (a pixel is re-queued when its distance decreases); direct native call only"⟩,
+  ⟨"_morph.hitmiss", [``C10_hitmiss_in_bounds, ``C10_hitmiss_margin_test_sufficient], [``C11_hitmiss_guards_imply_pre, ``C11_hitmiss_safe], "safe", ""⟩,
+  ⟨"_morph.majority_filter", [``C10_majority_in_bounds, ``C10_alloc_window_defined], [``C11_majority_guards_imply_pre, ``C11_majority_safe], "safe", ""⟩,
+  ⟨"_thin.thin", [``C10_thin_in_bounds, ``C10_alloc_thin_buffer_defined], [``C11_thin_safe], "safe", "`coordinates_delta` / `fill_data` offsets come from the generated element tables"⟩,
+  ⟨"_lbp.map", [``C10_lbp_map_in_bounds], [``C11_features_guards_imply_pre, ``C11_lbp_safe_partial], "partial", "`points <= 32` and `code < 2^points` are not guarded"⟩,
+  ⟨"_surf.surf", [``C10_surf_pyramid_in_bounds, ``C10_surf_interest_points_in_bounds, ``C10_surf_descriptor_windows_in_bounds, ``C10_surf_dominant_angle_in_bounds, ``C10_surf_descriptor_index_in_bounds, ``C10_alloc_surf_records_defined], [``C11_surf_guards_imply_pre, ``C11_surf_pyramid_safe], "safe", "float->int conversions abstracted"⟩,
+  ⟨"_surf.descriptors", [``C10_surf_descriptor_windows_in_bounds, ``C10_surf_dominant_angle_in_bounds, ``C10_surf_descriptor_index_in_bounds, ``C10_alloc_surf_records_defined], [``C11_surf_descriptors_safe], "safe", "float->int conversions abstracted"⟩,
+  ⟨"_surf.interest_points", [``C10_surf_pyramid_in_bounds, ``C10_surf_interest_points_in_bounds, ``C10_alloc_surf_records_defined], [``C11_surf_guards_imply_pre, ``C11_surf_pyramid_safe], "safe", ""⟩,
+  ⟨"_surf.pyramid", [``C10_surf_pyramid_in_bounds, ``C10_surf_pyramid_guarded, ``C10_surf_pyramid_no_int_overflow], [``C11_surf_guards_imply_pre, ``C11_surf_pyramid_safe], "safe", ""⟩,
+  ⟨"_surf.integral", [``C10_integral_in_bounds], [], "bounds", ""⟩,
+  ⟨"_surf.sum_rect", [``C10_surf_sum_rect_in_bounds, ``C10_surf_sum_rect_entry_in_bounds], [], "bounds", "unconditional: every argument tuple is safe"⟩,
+  ⟨"_texture.cooccurence", [``C10_cooccurence_in_bounds, ``C10_cooccurence_assertion_off_by_one], [``C11_cooccurence_guards_imply_pre, ``C11_cooccurence_safe, ``C11_cooccurence_linked_safe], "safe", ""⟩,
+  ⟨"_texture.compute_plus_minus", [``C10_compute_plus_minus_in_bounds, ``C10_alloc_fill_defined], [], "bounds", "the sizes 2*maxv / maxv come from haralick_features (Python)"⟩,
+  ⟨"_zernike.znl", [``C10_znl_in_bounds, ``C10_znl_fact_in_bounds, ``C10_alloc_znl_gm_defined], [``C11_features_guards_imply_pre, ``C11_zernike_loop_pre, ``C11_znl_safe], "safe", "the three array sizes are equal by construction in zernike.py (links `other`)"⟩
+]
+
+/-- **C11/C10, coverage of the native entry points.** EVERY `py_*` entry point of the current sources (the 52 rows of
+`Generated.nativeGuardTable`) has a row in `entryCover`, every row names at least one theorem, and every theorem named exists
+(the names are checked when this file is elaborated). A NEW entry point that nobody has looked at makes this `decide` fail.
+The levels: 31 entry points reach a composed `C11_*_safe` corollary, 2 a `_partial` one, 6 have guards ⇒ precondition only, 13 a
+C10 bounds theorem only; `_labeled.slic` is the one entry point without any index model. -/
+theorem C11_native_entry_points_covered :
+    Generated.nativeGuardTable.all (fun e => entryCover.any fun c => c.entry == e.1) = true ∧
+    entryCover.all (fun c => !(c.c10.isEmpty && c.c11.isEmpty)) = true ∧
+    (entryCover.filter fun c => c.level == "safe").length = 31 ∧
+    (entryCover.filter fun c => c.level == "partial").length = 2 ∧
+    (entryCover.filter fun c => c.level == "pre").length = 6 ∧
+    (entryCover.filter fun c => c.level == "bounds").length = 13 ∧
+    (entryCover.filter fun c => c.c10.isEmpty).map (·.entry) = ["_labeled.slic"] := by
+  decide +kernel
+
 end Round4Alloc
 -- ---------------------------------------------------------------------------------------------------------
